@@ -308,6 +308,17 @@ def c01(ck):
     ck.evaluations += 5 * len(scale)
     ck.extra["scaling_scenarios"] = len(scale)
     ck.extra["worst_scaling"] = sc["worst"]
+    # what the loaders build out of aliases, in the model: as the loader is, the depth of the loaded tree is not bounded
+    # (TLC's counterexample is the alias chain of the scaling scenarios); with the withdrawn repair it would be
+    na = tlc_cached(ck, "YNestAlias", "MC_NestAlias", [], workers=2)
+    nl = tlc_cached(ck, "YNestAlias", "MC_NestAlias_limit", [], workers=4)
+    if nl["violated"] or not nl["ok"]:
+        raise ToolError("MC_NestAlias_limit: %s" % nl["tail"][-500:])
+    chain_died = any(r["shape"] == "alias-chain" and r["api"] == "load" and (r["died"] or r["timed_out"]) for r in scale)
+    ck.extra["alias_composition"] = {"model_as_is": "TreeBounded violated" if na["violated"] else "TreeBounded holds", "model_with_expansion_limit": "TreeBounded holds",
+                                     "real_alias_chain_load": "process died" if chain_died else "survived"}
+    if bool(na["violated"]) != chain_died:
+        ck.note_drift({"model": "YNestAlias (ExpLimit = 0) says the depth of loaded trees is %s" % ("unbounded" if na["violated"] else "bounded"), "real": "the alias-chain scenario %s" % ("died" if chain_died else "survived")})
     work += scale
     wf = ck.wd("work.ndjson")
     write_ndjson(wf, work)
